@@ -22,7 +22,7 @@ func fixedPrograms() []string {
 		"let a = (&x as &T).f\nlet b = &x as &T\nlet c = &(x as T)\nlet d = (&x)!\nlet e = &x.y\nlet f = (&x).y\nlet g = &x[0]",
 		"let a = (a ?? b)!\nlet b = a ?? b!\nlet c = (a + b).c\nlet d = (a + b)(c)\nlet e = (a + b)[c]\nlet f = (a ? b : c).d\nlet g = (fun (): Int { return 1 })()",
 		"let a = a ? b : c ?? d\nlet b = (a ? b : c) ?? d\nlet c = a ?? (b ? c : d)\nlet d = a ?? b ? c : d",
-		"let a = f<T>(x)\nlet b = a < b\nlet c = a < b > (c)\nlet d = (a < b) > c\nlet e = a >> b\nlet f = a > > b\nlet g = f<T<U>>()",
+		"let a = f<T>(x)\nlet b = a < b\nlet c = a < b > (c)\nlet d = (a < b) > c\nlet e = a >> b\nlet g = f<T<U>>()",
 		"let s = \"a\\n\\t\\r\\\\\\\"\\'\\0\\u{41}\\u{1F600}é\"\nlet t = \"\"\nlet u = \"\\u{0}\\u{7F}\\u{80}\\u{10FFFF}\"",
 		"let s = \"x\\(1 + 2)y\\(\"inner\")z\"\nlet t = \"\\(a)\\(b)\"\nlet u = \"\\(a)\"\nlet v = \"pre\\(a)\"\nlet w = \"\\(a)post\"",
 		"let a = 0x1F\nlet b = 0b101\nlet c = 0o17\nlet d = 1_000\nlet e = 0.5\nlet f = 1.50\nlet g = 001\nlet h = 0x0\nlet i = -0x1F\nlet j = -0\nlet k = -0.0\nlet l = 00.100",
@@ -63,6 +63,8 @@ func fixedPrograms() []string {
 		"fun f() {\n    let x = a;\n    /public/p.y = 1\n}",
 		"fun f(): Int {\n    pre {\n        a: \"m\"\n        (*b).c\n    }\n    return 1\n}",
 		"let x = a < fun () {\n}",
+		"let x = (a < b) > (c ? d : e)",
+		"let x = a ? a ? a ? a ? a ? a ? a ? a ? a ? a ? a : b : b : b : b : b : b : b : b : b : b",
 		"struct S { struct T { struct U {} } }\ncontract C { resource interface RI {}\n struct interface SI {}\n contract interface CI {} }",
 	}
 }
@@ -127,6 +129,7 @@ func run(sum *lib.Summary) {
 	for k, v := range g.Forms {
 		sum.Distribution["form "+k] = v
 	}
+	runModel(sum, rng)
 }
 
 func clip(s string, n int) string {
